@@ -181,7 +181,7 @@ func (g *Gen) applyContract(fc *FuncContract, names []string, args []TV, cc *ssa
 		}
 		locs = append(locs, ls...)
 	}
-	all := false
+	all := !hasModifies(fc) && !fc.Extern // no modifies clause on a package function: frame unknown
 	keys := map[string]bool{}
 	for _, l := range locs {
 		if l.all {
@@ -524,6 +524,9 @@ func (g *Gen) checkPost(res []string, pos token.Pos) {
 		}
 		locs = append(locs, ls...)
 	}
+	if !hasModifies(g.fc) {
+		return // no frame claimed: callers havoc everything
+	}
 	for _, l := range locs {
 		if l.all {
 			return
@@ -667,4 +670,13 @@ func (g *Gen) havocArgs(cc *ssa.CallCommon) {
 		}
 	}
 	g.havocKeys(keys)
+}
+
+func hasModifies(fc *FuncContract) bool {
+	for _, c := range fc.Clauses {
+		if c.Kind == "modifies" {
+			return true
+		}
+	}
+	return false
 }
